@@ -593,13 +593,16 @@ def utils_args(sf, case):
 def gen_borealis_case(rng):
     L = rng.choice([10, 20, 37, 46, 50, 60])
     lp = [rng.choice([0.1, -0.1, 3.0, 0.0, 1.0, -2.5, PI / 7]) for _ in range(3)]
+    if rng.random() < 0.3:      # certificates with exact zeros next to small non-zero phases
+        lp = list(rng.choice([[0.01, 0.0, 0.02], [0.01, 0.015, 0.0], [0.3, 0.0, 0.0], [0.0, 0.2, 0.0], [0.0, 0.0, 0.05], [-0.02, 0.0, 0.0]]))
     inrange = rng.random() < 0.88
+    small = rng.random() < 0.5      # requested phases already inside the modulators' range
 
     def arr(lo, hi):
         return [rng.uniform(lo, hi) if rng.random() < 0.9 else 0 for _ in range(L)]
     args = [arr(0, 1.9 if inrange else 2.5)]
     for i in range(3):
-        args.append(arr(-6, 6) if rng.random() < 0.7 else [rng.choice([1, 0, -2]) for _ in range(L)])
+        args.append(arr(-1.4, 1.4) if small else (arr(-6, 6) if rng.random() < 0.7 else [rng.choice([1, 0, -2]) for _ in range(L)]))
         args.append(arr(0, 1.5 if inrange else 2.0))
     offsets = [None, None, None]
     u = rng.random()
@@ -609,8 +612,18 @@ def gen_borealis_case(rng):
         k = rng.randrange(3)
         offsets[k] = lp[k] if rng.random() < 0.7 else 0.25
     mut = rng.choice([None] * 10 + ["no-measure", "first-rgate", "bs-swapped", "bs-phase", "extra-rgate", "homodyne"])
-    return dict(kind="borealis", L=L, loop_phases=lp, args=args, offsets=offsets, mut=mut,
+    case = dict(kind="borealis", L=L, loop_phases=lp, args=args, offsets=offsets, mut=mut,
                 via_utils=(offsets == [None, None, None] and rng.random() < 0.3), loss=rng.random() < 0.25)
+    if rng.random() < 0.25:     # allowed values that are a union of separate values / ranges; arrays whose extremes are allowed
+        which = rng.choice(["s", "bs0", "bs2"])
+        gaps = {"s": [0, [0.3, 0.8], 1.9], "bs0": [0, [0.6, 1.1], PI / 2], "bs2": [[0, 0.2], [0.9, PI / 2]]}[which]
+        case["gpo"] = {which: gaps}
+        k = {"s": 0, "bs0": 2, "bs2": 6}[which]
+        lo_, hi_ = 0.0, (1.9 if which == "s" else PI / 2)
+        vals = [lo_, hi_] + [rng.choice([0.45, 0.7, 1.0, 0.25, 1.3, 0.1]) for _ in range(L - 2)]
+        rng.shuffle(vals)
+        case["args"][k] = vals
+    return case
 
 
 def wrap_to_pi(x):
@@ -628,8 +641,11 @@ def borealis_oracle(ctx, sf, fx, case, count=True):
 def _borealis_oracle(ctx, sf, fx, case, count=True):
     from strawberryfields.program_utils import CircuitError
     from strawberryfields.parameters import par_evaluate
-    dev, spec = borealis_device(sf, fx, case["loop_phases"])
+    dev, spec = borealis_device(sf, fx, case["loop_phases"], case.get("gpo"))
     rp = dict(case)
+    offsets = list(case["offsets"])
+    if case.get("mut") == "extra-rgate" and offsets[0] is None:
+        offsets[0] = 0.3          # the additional Rgate(0.3) stands where the layout has loop 0's offset: a user-set offset
     eff_args = case["args"]
     if case.get("via_utils"):
         a0 = copy.deepcopy(case["args"])
@@ -705,7 +721,7 @@ def _borealis_oracle(ctx, sf, fx, case, count=True):
     offs_pos = [3, 6, 9]
     for i, pos in enumerate(offs_pos):
         v = float(par_evaluate(compiled.circuit[pos].op.p[0]))
-        want = case["offsets"][i] if case["offsets"][i] is not None else case["loop_phases"][i]
+        want = offsets[i] if offsets[i] is not None else case["loop_phases"][i]
         if abs(v - want) > 1e-12 or not hw12.in_ranges(v, gp[f"loop{i}_phase"]):
             ctx.fail("tdm-loop-offset:borealis", f"loop {i} offset gate carries {v}, expected {want} within {gp[f'loop{i}_phase']}", rp)
             return
@@ -717,7 +733,7 @@ def _borealis_oracle(ctx, sf, fx, case, count=True):
     for i in range(3):
         srcphi = np.array(eff_args[1 + 2 * i], dtype=float)
         newphi = np.array(compiled.tdm_params[1 + 2 * i], dtype=float)
-        if case["offsets"][i] is not None:
+        if offsets[i] is not None:
             if np.max(np.abs(newphi - srcphi)) > 1e-12:
                 ctx.fail("tdm-user-offset-recompensated:borealis", f"loop {i}: offset set by the user, but its phases were changed", rp)
             continue
@@ -733,7 +749,7 @@ def _borealis_oracle(ctx, sf, fx, case, count=True):
                      f"loop {i}, time bin {j}: compensated phase {newphi[j]} is not source + offsets = {target[j]} modulo "
                      f"{'2 pi' if inr[j] else 'pi'}", rp)
             return
-        if case.get("via_utils") and i > 0 and not inr.all() and np.min(PI / 2 - np.abs(w[~inr])) < -1e-9:
+        if case.get("via_utils") and all(o is None for o in offsets) and i > 0 and not inr.all() and np.min(PI / 2 - np.abs(w[~inr])) < -1e-9:
             j = int(np.argmax(np.abs(w)))
             ctx.fail("tdm-utils-phases-not-compatible:borealis", f"after make_phases_compatible, loop {i} time bin {j} still needs a pi shift "
                      f"(compensated phase {w[j]})", rp)
@@ -748,7 +764,7 @@ def _borealis_oracle(ctx, sf, fx, case, count=True):
         shifted = copy.deepcopy(eff_args)
         prev = np.zeros(L)
         for i in range(3):
-            if case["offsets"][i] is not None:
+            if offsets[i] is not None:
                 continue
             corr = np.array([case["loop_phases"][i] * (j // DELAYS[i]) for j in range(L)])
             target = np.array(eff_args[1 + 2 * i], dtype=float) + corr - prev
@@ -760,8 +776,11 @@ def _borealis_oracle(ctx, sf, fx, case, count=True):
         Ne, Me = tdm_final_moments(build_borealis(sf, dict(case, args=shifted, via_utils=False)))
         d = max(float(np.max(np.abs(np.abs(Nc) - np.abs(Ne)))), float(np.max(np.abs(np.abs(Mc) - np.abs(Me)))))
         ctx.tally("tdm:borealis:statistics-compared")
+        # a loop whose offset the user set is skipped altogether, also the removal of the frame rotation that compensating an
+        # EARLIER loop introduced (known finding): classified separately
+        mixed = any(offsets[k] is not None and any(offsets[m] is None and case["loop_phases"][m] != 0 for m in range(k)) for k in range(3))
         if d > 1e-7:
-            ctx.fail("tdm-statistics-differ:borealis", f"Borealis: the compiled circuit (loop offsets {case['loop_phases']}, compensated phases) does not "
+            ctx.fail("tdm-statistics-differ:borealis" + (":user-offset-after-compensated-loop" if mixed else ""), f"Borealis: the compiled circuit (loop offsets {case['loop_phases']}, user-set {offsets}, compensated phases) does not "
                      f"prepare the source's state up to the documented pi shifts and local phases (moment distance {d:.3g})", rp)
 
 
@@ -864,7 +883,16 @@ def gen_tdm1_case(rng):
         alpha[rng.randrange(2 * c)] = 27
     if mut == "r-range":
         phi[rng.randrange(2 * c)] = rng.choice([3.5, -0.1])
-    return dict(kind="tdm1", target=target, c=c, alpha=alpha, phi=phi, theta=theta, mut=mut, sqfix=rng.choice([0.5643, 0.5643, 0.3]))
+    case = dict(kind="tdm1", target=target, c=c, alpha=alpha, phi=phi, theta=theta, mut=mut, sqfix=rng.choice([0.5643, 0.5643, 0.3]))
+    if rng.random() < 0.3:      # unions of separate values / ranges, per-bin arrays with allowed extremes and values in between
+        case["gp"] = {"bs": [0, [0.4, 0.8], [1.2, 6.283185307179586]], "r": [0, 0.5643, [1.0, 3.141592653589793]], "m": [0, 1.5, 6.2]}
+        n_ = 2 * c
+        case["alpha"] = [0, 6.0] + [rng.choice([0.2, 0.5, 1.0, 0.9, 1.5]) for _ in range(n_ - 2)]
+        case["phi"] = [0, PI] + [rng.choice([0.3, 0.5643, 0.8, 2.0]) for _ in range(n_ - 2)]
+        case["theta"] = [0, 6.2] + [rng.choice([1.5, 0.7, 3.0, 0]) for _ in range(n_ - 2)]
+        for k_ in ("alpha", "phi", "theta"):
+            rng.shuffle(case[k_])
+    return case
 
 
 def tdm1_layout(target, tm=4, sqfix=0.5643):
@@ -897,7 +925,8 @@ def build_tdm1(sf, case):
     mut, target = case["mut"], case["target"]
     sqfix = case.get("sqfix", 0.5643)
     modes = {"concurrent": 2 if mut != "concurrent" else 3, "spatial": 1, "temporal_max": 100 if mut != "temporal" else 1}
-    spec = {"target": target, "layout": tdm1_layout(target, sqfix=sqfix), "modes": modes, "compiler": [target], "gate_parameters": TDM1_GP}
+    spec = {"target": target, "layout": tdm1_layout(target, sqfix=sqfix), "modes": modes, "compiler": [target],
+            "gate_parameters": case.get("gp") or TDM1_GP}
     dev = sf.Device(spec)
     prog = sf.TDMProgram(N=2)
     with prog.context(case["alpha"], case["phi"], case["theta"]) as (p, q):
@@ -959,9 +988,10 @@ def _tdm1_oracle(ctx, sf, case, count=True):
     if abs(sq[0] - sqfix) > 1e-9 or abs(sq[1]) > 1e-9 or abs(float(par_evaluate(compiled.circuit[1].op.p[1]))) > 1e-9:
         ctx.fail(f"tdm-fixed-parameter:{target}", f"accepted {target} circuit has fixed layout values changed: Sgate{sq}", rp)
     for name, vals in (("bs", compiled.tdm_params[0]), ("r", compiled.tdm_params[1]), ("m", compiled.tdm_params[2])):
-        bad = [float(v) for v in vals if not hw12.in_ranges(float(v), TDM1_GP[name])]
+        gp_ = case.get("gp") or TDM1_GP
+        bad = [float(v) for v in vals if not hw12.in_ranges(float(v), gp_[name])]
         if bad:
-            ctx.fail(f"tdm-out-of-range:{target}", f"accepted {target} program has {name} = {bad[0]} outside {TDM1_GP[name]}", rp)
+            ctx.fail(f"tdm-out-of-range:{target}", f"accepted {target} program has {name} = {bad[0]} (one of {len(vals)} per-bin values) outside {gp_[name]}", rp)
             return
     if compiled.timebins > modes["temporal_max"] or mut == "concurrent":
         ctx.fail(f"tdm-mode-limits:{target}", f"accepted {target} program exceeds the device mode limits {modes}", rp)
@@ -980,7 +1010,7 @@ def prepare_any(sf, fx, case):
     if case["kind"] == "x":
         return build_prog(sf, case["desc"]), sf.Device(case_spec(case)), case["comp"]
     if case["kind"] == "borealis":
-        return build_borealis(sf, case), borealis_device(sf, fx, case["loop_phases"])[0], None
+        return build_borealis(sf, case), borealis_device(sf, fx, case["loop_phases"], case.get("gpo"))[0], None
     prog, dev, _ = build_tdm1(sf, case)
     return prog, dev, case["target"]
 
@@ -1165,6 +1195,313 @@ def helpers_oracle(ctx, sf, fx):
             pass
 
 
+
+# ====================================================================== function-level property oracles (independent of the model)
+def _spec_in_ranges(v, entries):
+    """the documented meaning of a device-spec range list: single values and [lower, upper] pairs, tolerance 1e-5"""
+    for e in entries:
+        lo, hi = (e, e) if not isinstance(e, (list, tuple)) else (e[0], e[-1])
+        if lo - 1e-5 <= v <= hi + 1e-5:
+            return True
+    return False
+
+
+def _flatten(v):
+    if isinstance(v, (list, tuple, np.ndarray)):
+        for x in v:
+            yield from _flatten(x)
+    else:
+        yield v
+
+
+def fn_ranges(ctx, sf, case, fx=None):
+    from strawberryfields.compilers import Ranges
+    entries, vals = case["ranges"], case["values"]
+    bad_spec = any(len(e) == 2 and e[1] < e[0] for e in entries)
+    try:
+        R = Ranges(*entries)
+    except ValueError:
+        if not bad_spec:
+            ctx.fail("fn:Ranges:rejects-valid-spec", f"Ranges{entries} raises ValueError", dict(kind="fn", fn="ranges", case=case))
+        return
+    for v in vals:
+        got, want = bool(v in R), _spec_in_ranges(v, [e if len(e) == 2 else e[0] for e in entries])
+        if got != want:
+            ctx.fail("fn:Ranges:contains", f"{v} in Ranges{entries} is {got}", dict(kind="fn", fn="ranges", case=dict(ranges=entries, values=[v])))
+            return
+
+
+def fn_validate(ctx, sf, case, fx=None):
+    gp, params = case["gp"], case["params"]
+    dev = sf.Device({"target": "t", "layout": "", "modes": 2, "compiler": [], "gate_parameters": None if case.get("none") else gp})
+    snap = copy.deepcopy(params)
+    try:
+        dev.validate_parameters(**params)
+        accepted = True
+    except ValueError:
+        accepted = False
+    if params != snap:
+        ctx.fail("fn:validate_parameters:input-mutated", "validate_parameters changed its arguments", dict(kind="fn", fn="validate", case=case))
+    if case.get("none"):
+        valid, why = True, ""
+    else:
+        valid, why = True, ""
+        for name, v in params.items():
+            if name not in gp:
+                valid, why = False, f"parameter {name} unknown"
+                break
+            badv = [x for x in _flatten(v) if not _spec_in_ranges(float(x), gp[name])]
+            if badv:
+                valid, why = False, f"{name} contains {badv[0]}, allowed {gp[name]}"
+                break
+    if accepted and not valid:
+        ctx.fail("fn:validate_parameters:accepts-invalid", f"Device.validate_parameters accepts although {why} (values {params})",
+                 dict(kind="fn", fn="validate", case=case))
+    elif valid and not accepted:
+        ctx.fail("fn:validate_parameters:rejects-valid", f"Device.validate_parameters rejects {params} although every value is allowed by {gp}",
+                 dict(kind="fn", fn="validate", case=case))
+
+
+def fn_init(ctx, sf, case, fx=None):
+    from strawberryfields.compilers import Compiler
+    from strawberryfields.program_utils import CircuitError
+
+    class Scratch(Compiler):
+        interactive = False
+        primitives = set()
+        decompositions = {}
+    state, k = None, 0
+    for ev in case["events"]:
+        k += 1
+        if ev[0] == "reset":
+            Scratch.reset_circuit()
+            state = None
+            ok = want = True
+        else:
+            try:
+                Scratch.init_circuit(ev[1]); ok = True
+            except CircuitError:
+                ok = False
+            if state:
+                want = state.replace("\n", "") == ev[1].replace("\n", "")
+            else:
+                want, state = True, ev[1]
+        if ok != want or Scratch._layout != state:
+            ctx.fail("fn:init_circuit", f"after {case['events'][:k]}: call accepted={ok} (documented: {want}), stored layout {Scratch._layout!r} (documented: {state!r})",
+                     dict(kind="fn", fn="init", case=dict(events=case["events"][:k])))
+            return
+
+
+def _build_meas_prog(sf, case):
+    import strawberryfields.ops as ops
+    prog = sf.Program(case["n"])
+    free = list(case["order"])
+    with prog.context as q:
+        if case.get("sgate"):
+            ops.Sgate(0.5) | q[0]
+        for m, k in case["meas"]:
+            regs = [free.pop() for _ in range(k)]
+            op = getattr(ops, m)
+            op = (op(0.3) if m == "MeasureHomodyne" else op()) if isinstance(op, type) else op
+            op | tuple(q[r] for r in regs)
+    return prog
+
+
+def fn_assert(ctx, sf, case, fx=None):
+    from strawberryfields.program_utils import CircuitError
+    prog = _build_meas_prog(sf, case)
+    dev = sf.Device({"target": "abc", "layout": "", "modes": case["modes"], "compiler": [], "gate_parameters": {}})
+    try:
+        prog.assert_modes(dev); ok = True
+    except CircuitError:
+        ok = False
+    if isinstance(case["modes"], int):
+        want = case["n"] <= case["modes"]
+    else:
+        cnt = {"pnr": 0, "homodyne": 0, "heterodyne": 0}
+        kind = {"MeasureFock": "pnr", "MeasureHomodyne": "homodyne", "MeasureX": "homodyne", "MeasureP": "homodyne",
+                "MeasureHeterodyne": "heterodyne", "MeasureHD": "heterodyne"}
+        for m, k in case["meas"]:
+            if m in kind:
+                cnt[kind[m]] += k
+        lim = case["modes"]
+        want = cnt["pnr"] <= lim["pnr_max"] and cnt["homodyne"] <= lim["homodyne_max"] and cnt["heterodyne"] <= lim["heterodyne_max"]
+    if ok != want:
+        ctx.fail("fn:assert_modes", f"Program.assert_modes {'accepts' if ok else 'rejects'} measurements {case['meas']} on {case['n']} modes for device modes {case['modes']}",
+                 dict(kind="fn", fn="assert", case=case))
+
+
+def fn_tdm_assert(ctx, sf, case, fx=None):
+    import strawberryfields.ops as ops
+    from strawberryfields.program_utils import CircuitError
+    N, tb, lim = case["N"], case["timebins"], case["lim"]
+    prog = sf.TDMProgram(N=N)
+    args = [[0.1] * tb for _ in range(len(N))]
+    with prog.context(*args) as (p, q):
+        off = 0
+        for k, nk in enumerate(N):
+            ops.Rgate(p[k]) | q[off]
+            ops.MeasureHomodyne(0.0) | q[off]
+            off += nk
+    dev = sf.Device({"target": "abc", "layout": "", "modes": lim, "compiler": [], "gate_parameters": {}})
+    try:
+        prog.assert_modes(dev); ok = True
+    except CircuitError:
+        ok = False
+    want = tb <= lim["temporal_max"] and sum(N) == lim["concurrent"] and len(N) == lim["spatial"]
+    if ok != want:
+        ctx.fail("fn:tdm_assert_modes", f"TDMProgram.assert_modes {'accepts' if ok else 'rejects'} N={N}, {tb} time bins for {lim}",
+                 dict(kind="fn", fn="tdm_assert", case=case))
+
+
+def fn_dups(ctx, sf, case, fx=None):
+    import strawberryfields.compilers.xunitary as xu
+    keys = [tuple(k) for k in case["seq"]]
+    got = [(tuple(k), list(l)) for k, l in xu.list_duplicates(keys)]
+    first = []
+    for k in keys:
+        if k not in first:
+            first.append(k)
+    want = [(k, [i for i, x in enumerate(keys) if x == k]) for k in first if keys.count(k) > 1]
+    if got != want:
+        ctx.fail("fn:list_duplicates", f"list_duplicates({keys}) = {got}", dict(kind="fn", fn="dups", case=case))
+
+
+def _borealis_layout(sf, fx):
+    import blackbird
+    import strawberryfields.io as sio
+    import strawberryfields.compilers.tdm as tdmc
+    lay_prog = sio.to_program(blackbird.loads(fx["borealis_layout"]))
+    comp = tdmc.Borealis()
+    lay = [[type(c.op).__name__, sorted(r.ind for r in c.reg), bool(comp._is_loop_offset(c.op))] for c in lay_prog.circuit]
+    return lay_prog, lay
+
+
+def run_offset_insert(sf, fx, seq, lay_prog):
+    import strawberryfields.compilers.tdm as tdmc
+    from strawberryfields.program_utils import CircuitError, Command
+    import strawberryfields.ops as ops
+    regs = {r.ind: r for r in lay_prog.register}
+    cmds = []
+    for cls, wires in seq:
+        op = {"Sgate": ops.Sgate(0.1), "Rgate": ops.Rgate(0.2), "BSgate": ops.BSgate(0.3, PI / 2), "MeasureFock": ops.MeasureFock()}[cls]
+        cmds.append(Command(op, [regs[w] for w in wires]))
+    orig = tdmc.TDM.compile
+    tdmc.Borealis.reset_circuit()
+    tdmc.Borealis.init_circuit(fx["borealis_layout"])
+    got = {}
+    tdmc.TDM.compile = lambda self, s, r, _g=got: _g.setdefault("seq", list(s))
+    c = tdmc.Borealis()
+    try:
+        c.compile(list(cmds), lay_prog.register)
+        return dict(seq=[[type(x.op).__name__, sorted(r.ind for r in x.reg), bool(c._is_loop_offset(x.op))] for x in got["seq"]],
+                    flags=list(c._user_offsets))
+    except CircuitError:
+        return None
+    finally:
+        tdmc.TDM.compile = orig
+        tdmc.Borealis.reset_circuit()
+
+
+def fn_offsets(ctx, sf, case, fx=None):
+    lay_prog, lay = _borealis_layout(sf, fx)
+    seq = case["seq"]
+    impl = run_offset_insert(sf, fx, seq, lay_prog)
+    if impl is None:
+        return          # a CircuitError is always a permitted answer
+    out, flags = impl["seq"], impl["flags"]
+    why = None
+    if len(out) < len(lay) or any(out[i][:2] != lay[i][:2] for i in range(len(lay))):
+        why = "the sequence handed on does not follow the device layout position by position"
+    elif [[c, sorted(w)] for c, w, ins in out if not ins] != [[c, sorted(w)] for c, w in seq]:
+        why = "apart from inserted loop offsets the sequence is not the user's"
+    else:
+        offs_pos = [i for i, l in enumerate(lay) if l[2]]
+        if len(flags) != len(offs_pos) or any(flags[k] != (not out[i][2]) for k, i in enumerate(offs_pos)):
+            why = f"user-offset flags {flags} do not say which loop offsets the user set"
+    if why:
+        ctx.fail("fn:offset_insertion", f"Borealis.compile on {seq}: {why} (got {out})", dict(kind="fn", fn="offsets", case=case))
+
+
+def fn_update(ctx, sf, case, fx=None):
+    """Borealis.update_params by itself: every compensated phase = requested phase + accumulated offset of its loop − accumulated
+    offset of the last compensated loop before it (mod pi; mod 2 pi when that value is within the modulators' range), inside
+    [-pi/2, pi/2]; loops whose offset the user set keep their phases.  The accumulation is done here, in floats."""
+    import strawberryfields.compilers.tdm as tdmc
+    L, offs, user, phis = case["L"], case["offs"], case["user"], case["phis"]
+    params = [[0.0] * L]
+    for i in range(3):
+        params += [[x * PI for x in phis[i]], [0.0] * L]
+    fake = types.SimpleNamespace(tdm_params=copy.deepcopy(params), circuit=[])
+    dev = types.SimpleNamespace(certificate={"loop_phases": [o * PI for o in offs]})
+    c = tdmc.Borealis()
+    c._user_offsets = list(user)
+    c.update_params(fake, dev)
+    prev = np.zeros(L)
+    for i in range(3):
+        src = np.array(params[1 + 2 * i], dtype=float)
+        new = np.array(fake.tdm_params[1 + 2 * i], dtype=float)
+        if user[i]:
+            if L and np.max(np.abs(new - src)) > 1e-12:
+                ctx.fail("fn:update_params:user-loop-changed", f"loop {i}: offset set by the user but its phases were changed", dict(kind="fn", fn="update", case=case))
+                return
+            continue
+        corr = np.array([offs[i] * PI * (j // DELAYS[i]) for j in range(L)])
+        target = src + corr - prev
+        w = wrap_to_pi(target)
+        dpi = np.abs(wrap_to_pi(2 * (new - target))) / 2
+        d2 = np.abs(wrap_to_pi(new - target))
+        inr = np.abs(w) < PI / 2 - 1e-9
+        edge = np.abs(np.abs(w) - PI) < 1e-9            # +-pi: either representative is right
+        if L and (np.max(dpi) > 1e-8 or (inr.any() and np.max(d2[inr]) > 1e-8) or np.max(np.abs(new)) > PI / 2 + 1e-9):
+            j = int(np.argmax(np.maximum(dpi, np.where(inr, d2, 0))))
+            if np.max(dpi) <= 1e-8 and not (inr.any() and np.max(d2[inr]) > 1e-8):
+                j = int(np.argmax(np.abs(new)))
+                ctx.fail("fn:update_params:out-of-modulator-range", f"certificate loop phases {[o * PI for o in offs]}, loop {i}, time bin {j}: phase {new[j]} "
+                         "left outside [-pi/2, pi/2]", dict(kind="fn", fn="update", case=case))
+                return
+            ctx.fail("fn:update_params:compensation", f"certificate loop phases {[o * PI for o in offs]}, loop {i}, time bin {j}: compensated phase {new[j]} "
+                     f"but requested phase + accumulated loop offsets = {target[j]} (mod {'2 pi' if inr[j] else 'pi'})", dict(kind="fn", fn="update", case=case))
+            return
+        prev = corr
+
+
+def fn_compat(ctx, sf, case, fx=None):
+    """tdm.utils.make_phases_compatible by itself (own float accumulation): loop 0 unchanged, other phases changed by 0 or pi, and
+    afterwards phase + accumulated offset of the loop − accumulated offset of the loop before lies in [-pi/2, pi/2] (mod 2 pi)"""
+    from strawberryfields.tdm import utils as tu
+    L, offs, phis = case["L"], case["offs"], case["phis"]
+    d = {"Sgate": [0.0] * L, "loops": {i: {"Rgate": [x * PI for x in phis[i]], "BSgate": [0.0] * L} for i in range(3)}}
+    out = tu.make_phases_compatible(d, types.SimpleNamespace(certificate={"loop_phases": [o * PI for o in offs]}))
+    prev = np.zeros(L)
+    for i in range(3):
+        src = np.array([x * PI for x in phis[i]], dtype=float)
+        new = np.array(out["loops"][i]["Rgate"], dtype=float)
+        corr = np.array([offs[i] * PI * (j // DELAYS[i]) for j in range(L)])
+        if i == 0:
+            bad = L and np.max(np.abs(new - src)) > 0
+        else:
+            w = wrap_to_pi(new + corr - prev)
+            bad = L and (np.max(np.abs(wrap_to_pi(2 * (new - src))) / 2) > 1e-9 or np.max(np.abs(w)) > PI / 2 + 1e-9)
+        if bad:
+            ctx.fail("fn:make_phases_compatible", f"certificate loop phases {[o * PI for o in offs]}: loop {i} phases are not the input up to pi with the "
+                     "compensated value inside [-pi/2, pi/2]", dict(kind="fn", fn="compat", case=case))
+            return
+        prev = corr
+
+
+FN_ORACLES = dict(ranges=fn_ranges, validate=fn_validate, init=fn_init, **{"assert": fn_assert}, tdm_assert=fn_tdm_assert, dups=fn_dups,
+                  offsets=fn_offsets, update=fn_update, compat=fn_compat)
+
+
+def fn_check(ctx, sf, name, case, fx=None):
+    ctx.oracle_cases += 1
+    try:
+        FN_ORACLES[name](ctx, sf, case, fx)
+    except Exception as e:  # noqa: BLE001
+        ctx.fail(f"fn-crash:{name}:{type(e).__name__}", f"{name}: {type(e).__name__} {str(e)[:150]}", dict(kind="fn", fn=name, case=case))
+
+
 # ====================================================================== correspondence
 F = hw12.frac
 
@@ -1196,6 +1533,7 @@ def corr_ranges(ctx, sf):
         ctx.count("corr:ranges", case, len(entries) >= 2)
         reqs.append(dict(op="hw.ranges", ranges=[[F(x) for x in e] for e in entries], values=[F(v) for v in vals]))
         pend.append(("Ranges.__contains__", case, impl))
+        fn_check(ctx, sf, "ranges", case)
     return reqs, pend
 
 
@@ -1221,8 +1559,21 @@ def corr_validate(ctx, sf):
                     lo, hi = (e, e) if not isinstance(e, list) else e
                     return rng.choice([lo, hi, (lo + hi) / 2, lo - 2e-5, hi + 0.5e-5])
                 return dy(rng, -3, 3)
-            shape = rng.choice(["scalar", "list", "nested"])
-            if shape == "scalar":
+            shape = rng.choice(["scalar", "list", "nested", "gap"])
+            allowed_pts = []
+            if nm in gp_spec:
+                for e in gp_spec[nm]:
+                    allowed_pts += ([e] if not isinstance(e, list) else [e[0], e[1]])
+            if shape == "gap" and len(allowed_pts) >= 2:
+                # a per-time-bin array whose smallest and largest values are allowed, with values in between that may fall in a gap
+                lo_, hi_ = min(allowed_pts), max(allowed_pts)
+                inner = [lo_ + (hi_ - lo_) * rng.choice([0.25, 0.5, 0.75, 0.1, 0.9]) for _ in range(rng.randint(1, 5))]
+                v = [lo_] + inner + [hi_]
+                rng.shuffle(v)
+                if rng.random() < 0.3:
+                    v = [v[: len(v) // 2], v[len(v) // 2:]]
+                fl = list(_flatten(v))
+            elif shape in ("scalar", "gap"):
                 v = val(); fl = [v]
             elif shape == "list":
                 v = [val() for _ in range(rng.randint(0, 4))]; fl = list(v)
@@ -1246,6 +1597,7 @@ def corr_validate(ctx, sf):
         gpj = None if none_gp else [[nm, [[F(x) for x in (e if isinstance(e, list) else [e])] for e in ent]] for nm, ent in gp_spec.items()]
         reqs.append(dict(op="hw.validate", gp=gpj, params=flat))
         pend.append(("Device.validate_parameters", case, impl))
+        fn_check(ctx, sf, "validate", case)
     return reqs, pend
 
 
@@ -1277,6 +1629,7 @@ def corr_layout_cache(ctx, sf):
         ctx.count("corr:init_circuit", case, len(evs) >= 3)
         reqs.append(dict(op="hw.layout", events=evs))
         pend.append(("Compiler.init_circuit history", case, impl))
+        fn_check(ctx, sf, "init", case)
     return reqs, pend
 
 
@@ -1300,35 +1653,32 @@ def corr_assert_modes(ctx, sf):
     meas = ["MeasureFock", "MeasureHomodyne", "MeasureX", "MeasureP", "MeasureHeterodyne", "MeasureHD", "MeasureThreshold"]
     for _ in range(ctx.n(100, 800)):
         n = rng.randint(1, 6)
-        prog = sf.Program(n)
-        free = list(range(n))
-        rng.shuffle(free)
-        circ = []
-        with prog.context as q:
-            if rng.random() < 0.5:
-                ops.Sgate(0.5) | q[0]
-            while free and rng.random() < 0.8:
-                m = rng.choice(meas)
-                k = rng.randint(1, min(3, len(free))) if m in ("MeasureFock", "MeasureThreshold") else 1
-                regs = [free.pop() for _ in range(k)]
-                op = getattr(ops, m)
-                op = (op(0.3) if m == "MeasureHomodyne" else op()) if isinstance(op, type) else op
-                op | tuple(q[r] for r in regs)
+        order = list(range(n))
+        rng.shuffle(order)
+        left, meas_l = n, []
+        while left and rng.random() < 0.8:
+            m = rng.choice(meas)
+            k = rng.randint(1, min(3, left)) if m in ("MeasureFock", "MeasureThreshold") else 1
+            meas_l.append([m, k])
+            left -= k
+        base = dict(n=n, order=order, sgate=rng.random() < 0.5, meas=meas_l)
+        prog = _build_meas_prog(sf, base)
         circ = [[str(c.op), len(c.reg)] for c in prog.circuit]
         if rng.random() < 0.35:
             dm = rng.randint(1, 7)
             dev = sf.Device({"target": "abc", "layout": "", "modes": dm, "compiler": [], "gate_parameters": {}})
             impl = err_of(lambda: prog.assert_modes(dev))
             reqs.append(dict(op="hw.assertInt", total=n, modes=dm))
-            case = dict(n=n, modes=dm)
+            case = dict(base, modes=dm)
         else:
             lim = dict(pnr_max=rng.randint(0, 4), homodyne_max=rng.randint(0, 3), heterodyne_max=rng.randint(0, 2))
             dev = sf.Device({"target": "abc", "layout": "", "modes": lim, "compiler": [], "gate_parameters": {}})
             impl = err_of(lambda: prog.assert_modes(dev))
             reqs.append(dict(op="hw.assertDict", circ=circ, pnr=lim["pnr_max"], hom=lim["homodyne_max"], het=lim["heterodyne_max"]))
-            case = dict(circ=circ, lim=lim)
+            case = dict(base, modes=lim, circ=circ)
         ctx.count("corr:assert_modes", case, impl != "ok")
         pend.append(("Program.assert_modes", case, impl))
+        fn_check(ctx, sf, "assert", case)
     for _ in range(ctx.n(40, 300)):
         N = rng.choice([[2], [3], [1, 2], [2, 2]])
         tb = rng.randint(1, 6)
@@ -1348,6 +1698,7 @@ def corr_assert_modes(ctx, sf):
         reqs.append(dict(op="hw.assertTdm", timebins=prog.timebins, concurr=prog.concurr_modes, spatial=prog.spatial_modes,
                          tmax=lim["temporal_max"], dconc=lim["concurrent"], dspat=lim["spatial"]))
         pend.append(("TDMProgram.assert_modes", case, impl))
+        fn_check(ctx, sf, "tdm_assert", case)
     return reqs, pend
 
 
@@ -1411,6 +1762,7 @@ def corr_merge(ctx, sf):
         ctx.count("corr:list_duplicates", case, len(impl) >= 2)
         reqs.append(dict(op="hw.dups", seq=[list(k) for k in keys]))
         pend.append(("xunitary.list_duplicates", case, impl))
+        fn_check(ctx, sf, "dups", dict(seq=[list(k) for k in keys]))
     orig = xu.group_operations
     for _ in range(ctx.n(150, 1200)):
         N = rng.randint(1, 5)
@@ -1517,12 +1869,13 @@ def corr_borealis(ctx, sf, fx):
         ctx.tally("corr:offset_insert:" + ("ok" if impl else "CircuitError"))
         reqs.append(dict(op="hw.offsets", layout=lay, seq=[[c_, sorted(w), False] for c_, w in seq]))
         pend.append(("Borealis.compile offset insertion", case, impl))
+        fn_check(ctx, sf, "offsets", case, fx)
     # ---- update_params on rational multiples of pi
     for _ in range(ctx.n(60, 500)):
         L = rng.randint(1, 45)
         den = rng.choice([7, 9, 11, 13])
-        offs = [rng.randint(-2 * den, 2 * den) / den for _ in range(3)]
-        user = [rng.random() < 0.25 for _ in range(3)]
+        offs = [rng.choice([0.0, 0.0, rng.randint(-2 * den, 2 * den) / den, rng.randint(-2 * den, 2 * den) / den, 1 / (den * 30)]) for _ in range(3)]
+        user = [rng.random() < 0.2 for _ in range(3)]
         phis = [[rng.randint(-3 * den, 3 * den) / (den * rng.choice([1, 2, 3])) for _ in range(L)] for _ in range(3)]
         params = [[0.0] * L]
         for i in range(3):
@@ -1539,6 +1892,7 @@ def corr_borealis(ctx, sf, fx):
         fr = lambda x: [Fraction(x).limit_denominator(1000).numerator, Fraction(x).limit_denominator(1000).denominator]
         reqs.append(dict(op="hw.update", len=L, loops=[[fr(offs[i]), DELAYS[i], user[i], [fr(x) for x in phis[i]]] for i in range(3)]))
         pend.append(("Borealis.update_params", case, impl))
+        fn_check(ctx, sf, "update", case)
     return reqs, pend
 
 
@@ -1663,6 +2017,120 @@ def corr_xchecks(ctx, sf):
     return reqs, pend
 
 
+def corr_extra(ctx, sf, fx):
+    """Borealis.add_loss, tdm.utils.make_phases_compatible, the hard-coded-parameter rule of Compiler.compile and the
+    fixed-value rule of validate_gate_parameters"""
+    import blackbird
+    import strawberryfields.ops as ops
+    import strawberryfields.compilers.tdm as tdmc
+    import strawberryfields.program_utils as pu
+    from strawberryfields.compilers import Compiler
+    from strawberryfields.parameters import par_evaluate
+    from strawberryfields.tdm import utils as tu
+    from fractions import Fraction
+    rng = ctx.rng
+    reqs, pend = [], []
+    # ---- add_loss on arbitrary TDM circuits
+    for _ in range(ctx.n(40, 300)):
+        tb = rng.randint(1, 20)
+        seq = []
+        for _k in range(rng.randint(1, 7)):
+            c = rng.choice(["Sgate", "Rgate", "BSgate", "BSgate"])
+            seq.append([c, rng.sample(range(3), 2) if c == "BSgate" else [rng.randrange(3)]])
+        seq.append(["MeasureFock", [0]])
+        prog = sf.TDMProgram(N=3)
+        with prog.context([0.1] * tb, [0.2] * tb, [0.3] * tb) as (p, q):
+            for c, regs in seq:
+                if c == "Sgate":
+                    ops.Sgate(p[0]) | q[regs[0]]
+                elif c == "Rgate":
+                    ops.Rgate(p[1]) | q[regs[0]]
+                elif c == "BSgate":
+                    ops.BSgate(p[2], PI / 2) | (q[regs[0]], q[regs[1]])
+                else:
+                    ops.MeasureFock() | q[0]
+        nloops = rng.randint(0, 4)
+        cert = {"common_efficiency": dy(rng, 0, 1), "loop_efficiencies": [dy(rng, 0, 1) for _ in range(nloops)],
+                "relative_channel_efficiencies": [0.5 + 0.03125 * k for k in range(16)]}
+        cert0 = copy.deepcopy(cert)
+        dev = types.SimpleNamespace(certificate=cert)
+        try:
+            tdmc.Borealis().add_loss(prog, dev)
+            impl = []
+            for c in prog.circuit:
+                if isinstance(c.op, ops.LossChannel):
+                    try:
+                        impl.append(["LossChannel", [r.ind for r in c.reg], F(float(par_evaluate(c.op.p[0])))])
+                    except Exception:  # noqa: BLE001
+                        impl.append(["LossChannel", [r.ind for r in c.reg], "param"])
+                else:
+                    impl.append([type(c.op).__name__, [r.ind for r in c.reg]])
+            tiled = (cert0["relative_channel_efficiencies"] * ((tb + 15) // 16))[:tb]
+            if [float(x) for x in prog.tdm_params[-1]] != tiled or cert != cert0:
+                ctx.fail("fn:add_loss:efficiencies", "add_loss: per-bin detection efficiencies are not the tiled certificate values, or the certificate was edited",
+                         dict(kind="none"))
+        except IndexError:
+            impl = None
+        case = dict(seq=seq, nloops=nloops)
+        ctx.count("corr:add_loss", case, impl is not None and sum(1 for c, _ in seq if c == "BSgate") >= 2)
+        reqs.append(dict(op="hw.addLoss", circ=seq, glob=F(cert0["common_efficiency"]), loops=[F(x) for x in cert0["loop_efficiencies"]]))
+        pend.append(("Borealis.add_loss", case, impl))
+    # ---- make_phases_compatible on rational multiples of pi (odd denominators: no value sits on the +-pi/2 boundary)
+    for _ in range(ctx.n(50, 400)):
+        L = rng.randint(1, 45)
+        den = rng.choice([7, 9, 11, 13])
+        offs = [rng.choice([0.0, rng.randint(-2 * den, 2 * den) / den, rng.randint(-2 * den, 2 * den) / den]) for _ in range(3)]
+        phis = [[rng.randint(-3 * den, 3 * den) / (den * rng.choice([1, 3])) for _ in range(L)] for _ in range(3)]
+        d = {"Sgate": [0.0] * L, "loops": {i: {"Rgate": [x * PI for x in phis[i]], "BSgate": [0.0] * L} for i in range(3)}}
+        d0 = copy.deepcopy(d)
+        out = tu.make_phases_compatible(d, types.SimpleNamespace(certificate={"loop_phases": [o * PI for o in offs]}))
+        impl = [[float(v) / PI for v in out["loops"][i]["Rgate"]] for i in range(3)]
+        if d != d0:
+            ctx.fail("fn:make_phases_compatible:input-mutated", "make_phases_compatible changed its input", dict(kind="none"))
+        case = dict(L=L, offs=offs, phis=phis)
+        ctx.count("corr:make_phases_compatible", case, L >= 7)
+        fr = lambda x: [Fraction(x).limit_denominator(1000).numerator, Fraction(x).limit_denominator(1000).denominator]
+        reqs.append(dict(op="hw.compatible", len=L, loops=[[fr(offs[i]), DELAYS[i], [fr(x) for x in phis[i]]] for i in range(3)]))
+        pend.append(("tdm.utils.make_phases_compatible", case, impl))
+        fn_check(ctx, sf, "compat", case)
+    # ---- parameter rules: Compiler.compile (hard-coded layout parameters), validate_gate_parameters (fixed layout values)
+    for _ in range(ctx.n(60, 500)):
+        def larg():
+            u = rng.random()
+            return rng.choice([0.5, 0.0, 0.25]) if u < 0.5 else ("sym:r%d" % rng.randint(0, 1) if u < 0.85 else "2*r0")
+        def parg():
+            u = rng.random()
+            return rng.choice([0.5, 0.0, 0.25, 0.500004, 0.50002]) if u < 0.8 else "x"
+        la, pa = [larg(), larg()], [parg(), parg()]
+        txt = lambda a: ("{" + a[4:] + "}") if isinstance(a, str) and a.startswith("sym:") else ("2*{r0}" if a == "2*r0" else repr(a))
+        layout = f"name t\nversion 1.0\n\nSgate({txt(la[0])}, {txt(la[1])}) | 0\n"
+        prog = sf.Program(1)
+        x = prog.params("x")
+        with prog.context as q:
+            ops.Sgate(*[x if a == "x" else a for a in pa]) | q[0]
+
+        class Scratch(Compiler):
+            interactive = False
+            primitives = {"Sgate"}
+            decompositions = {}
+        Scratch.init_circuit(layout)
+        try:
+            Scratch().compile(prog.circuit, prog.register)
+            clash = False
+        except pu.CircuitError as e:
+            clash = "parameter values" in str(e)
+        impl = dict(clash=clash)
+        if "x" not in pa:
+            bbp = blackbird.loads("name t\nversion 1.0\n\nSgate(%r, %r) | 0\n" % (pa[0], pa[1]))
+            impl["fixed"] = bool(pu._fixed_layout_values_match(blackbird.loads(layout), bbp))
+        case = dict(layout=la, prog=pa)
+        ctx.count("corr:param_rules", case, clash or impl.get("fixed") is False)
+        enc = lambda a: ([Fraction(a).limit_denominator(10 ** 7).numerator, Fraction(a).limit_denominator(10 ** 7).denominator] if not isinstance(a, str) else a)
+        reqs.append(dict(op="hw.paramRules", layout=[enc(a) for a in la], prog=[enc(a) for a in pa]))
+        pend.append(("parameter rules", case, impl))
+    return reqs, pend
+
+
 def canon(pair, model, impl, case):
     """returns (model', impl') to be compared exactly, or None when they agree by the pair's own rule"""
     if pair == "rectangular_symmetric mode pairs":
@@ -1673,6 +2141,21 @@ def canon(pair, model, impl, case):
     if pair == "X compile skeleton":
         m = dict(compiled=[list(x) for x in model["compiled"]], layout=[list(x) for x in model["layout"]], s2perm=True)
         return m, impl
+    if pair == "Borealis.add_loss":
+        return model, (None if impl is None else [list(x) for x in impl])
+    if pair == "parameter rules":
+        return ({k: model[k] for k in impl}, impl)
+    if pair == "tdm.utils.make_phases_compatible":
+        if len(model) != len(impl):
+            return model, impl
+        for lm, li in zip(model, impl):
+            if len(lm) != len(li):
+                return model, impl
+            for (p_, q_), y in zip(lm, li):
+                d_ = abs(p_ / q_ - y) % 2
+                if min(d_, 2 - d_) > 1e-9:
+                    return model, impl
+        return None
     if pair == "Borealis.update_params":
         # exact rationals vs float64: compare at 1e-9, except where the exact value sits on a branch boundary
         if len(model) != len(impl):
@@ -1756,6 +2239,8 @@ def run(ctx, sf):
         compare(ctx, reqs, pend)
     reqs, pend = corr_borealis(ctx, sf, fx)
     compare(ctx, reqs, pend)
+    reqs, pend = corr_extra(ctx, sf, fx)
+    compare(ctx, reqs, pend)
     # ---- oracle
     rng = ctx.rng
     nprng = ctx.nprng(5)
@@ -1769,7 +2254,96 @@ def run(ctx, sf):
     helpers_oracle(ctx, sf, fx)
 
 
+def directed(ctx, sf, fx, d):
+    """end-to-end inputs derived from a correspondence disagreement: the disagreeing case is turned into programs / devices on
+    which the property-level oracles can show the difference as a concrete failing input"""
+    pair, case = d["pair"], d["case"]
+    rng, nprng = ctx.rng, ctx.nprng(91)
+    fnmap = {"Ranges.__contains__": "ranges", "Device.validate_parameters": "validate", "Compiler.init_circuit history": "init",
+             "Program.assert_modes": "assert", "TDMProgram.assert_modes": "tdm_assert", "xunitary.list_duplicates": "dups",
+             "Borealis.compile offset insertion": "offsets", "Borealis.update_params": "update"}
+    name = next((v for k, v in fnmap.items() if k in pair), None)
+    if name:
+        fn_check(ctx, sf, name, case if name != "dups" else dict(seq=[list(k) for k in case["seq"]]), fx)
+    if "Borealis.update_params" in pair:
+        L = max(case["L"], 2)
+        lp = [o * PI for o in case["offs"]]
+        for scale in (1.0, None):
+            args = [[0.5] * L]
+            for i in range(3):
+                ph = [x * PI for x in (case["phis"][i] + [0.0] * L)[:L]]
+                if scale is None:                      # the same phases brought inside the modulators' range
+                    ph = [float(wrap_to_pi(np.array(x))) / 2.3 for x in ph]
+                args += [ph, [0.7] * L]
+            for LL in (L, 48):
+                a2 = [(a * (LL // len(a) + 1))[:LL] for a in args]
+                borealis_oracle(ctx, sf, fx, dict(kind="borealis", L=LL, loop_phases=lp, args=a2, mut=None, via_utils=False, loss=False,
+                                                  offsets=[lp[i] if case["user"][i] else None for i in range(3)]), count=False)
+    elif "Device.validate_parameters" in pair and not case.get("none"):
+        for nm, v in case["params"].items():
+            if nm not in case["gp"]:
+                continue
+            vals = [float(x) for x in _flatten(v)]
+            if not vals:
+                continue
+            ent = case["gp"][nm]
+            zero = [0.0] * len(vals)
+            for slot in ("alpha", "phi", "theta"):
+                gp = {"bs": [0], "r": [0], "m": [0]}
+                gp[{"alpha": "bs", "phi": "r", "theta": "m"}[slot]] = ent
+                c = dict(kind="tdm1", target=rng.choice(["TDM", "TD2"]), c=1, alpha=zero, phi=zero, theta=zero, mut=None, sqfix=0.5643, gp=gp)
+                c[slot] = vals
+                tdm1_oracle(ctx, sf, c, count=False)
+    elif "assert_modes" in pair:
+        for _ in range(20):
+            c = gen_tdm1_case(rng)
+            c["mut"] = rng.choice(["concurrent", "temporal", None])
+            tdm1_oracle(ctx, sf, c, count=False)
+            x = gen_x_case(rng, nprng)
+            x["modes"] = 2 * x["N"] - 2
+            x_oracle(ctx, sf, x, count=False)
+    elif "S2 merge" in pair:
+        N = case["N"]
+        ops_ = [dict(cls="S2gate", regs=[b[0], b[1]], pars=[b[2], b[3]], **({"dagger": True} if len(b) > 4 and b[4] else {})) for b in case["B"]]
+        ops_.append(dict(cls="MeasureFock", regs=list(range(2 * N)), pars=[]))
+        for share in (False, True):
+            x_oracle(ctx, sf, dict(kind="x", N=N, comp="Xunitary", sq="wide", ph="fixture", complist=[], modes=2 * N, kinds=["directed"],
+                                   desc=dict(n=2 * N, ops=ops_, share=share)), count=False)
+    elif "mode pairs" in pair or "skeleton" in pair or "verdict" in pair or "bookkeeping" in pair:
+        N = max(case.get("N", 2), 1)
+        comps = [case["comp"]] if case.get("comp") in ("Xunitary", "Xcov") else ["Xunitary", "Xcov"]
+        for comp in comps:
+            for uk in ("haar", "real", "phased_perm"):
+                U = hw12.rand_unitary(nprng, N, uk)
+                sq = [rng.choice([0.25, 0.5, 1.0]) for _ in range(N)]
+                for U2 in (U, U @ np.diag(np.exp(1j * 1e-4 * np.ones(N))), np.diag(np.exp(1j * 3e-5 * np.ones(N))) @ U):
+                    ops_ = [dict(cls="S2gate", regs=[i, i + N], pars=[sq[i], 0.0]) for i in range(N)]
+                    ops_ += [dict(cls="Interferometer", regs=list(range(N)), U=enc_U(U)), dict(cls="Interferometer", regs=list(range(N, 2 * N)), U=enc_U(U2)),
+                             dict(cls="MeasureFock", regs=list(range(2 * N)), pars=[])]
+                    x_oracle(ctx, sf, dict(kind="x", N=N, comp=comp, sq="wide", ph="fixture", complist=[], modes=2 * N, kinds=["directed"],
+                                           desc=dict(n=2 * N, ops=ops_)), count=False)
+    elif "offset insertion" in pair:
+        for _ in range(15):
+            c = gen_borealis_case(rng)
+            c.update(L=10, args=[a[:10] for a in c["args"]], loss=False, via_utils=False)
+            borealis_oracle(ctx, sf, fx, c, count=False)
+    elif "init_circuit" in pair:
+        history_oracle(ctx, sf, fx)
+
+
 def search(ctx, sf):
+    fx = fixture_ns(sf)
+    per_pair = {}
+    for d in list(ctx.disagreements):
+        per_pair[d["pair"]] = per_pair.get(d["pair"], 0) + 1
+        if per_pair[d["pair"]] > 6:
+            continue
+        try:
+            directed(ctx, sf, fx, d)
+        except Exception as e:  # noqa: BLE001
+            ctx.fail(f"directed-crash:{type(e).__name__}", f"directed search from {d['pair']}: {type(e).__name__} {str(e)[:150]}", dict(kind="none"))
+        if len(ctx.failures) >= 5:
+            return
     run(ctx, sf)
 
 
@@ -1782,6 +2356,10 @@ def replay(ctx, rp):
         borealis_oracle(ctx, sf, fixture_ns(sf), rp, count=False)
     elif rp["kind"] == "tdm1":
         tdm1_oracle(ctx, sf, rp, count=False)
+    elif rp["kind"] == "none":
+        return False
+    elif rp["kind"] == "fn":
+        fn_check(ctx, sf, rp["fn"], rp["case"], fixture_ns(sf))
     elif rp["kind"] == "history":
         replay_history(ctx, sf, fixture_ns(sf), rp)
     elif rp["kind"] == "helpers":
